@@ -569,6 +569,34 @@ Definition odocumented (s : state) (o : op) : list oid :=
   | OSpecTo r _ | OSpecTrim r | OSpecResample r _ => ob1 r    (* the spectrum editing methods *)
   | _ => []
   end.
+(* an array the call may not assign into: read-only (or not there at all) *)
+Definition frozen_at (s : state) (a : aid) : bool :=
+  match hget (hp s) a with Some c => cfrozen c | None => true end.
+(* calls whose result IS one of their arguments: fit_tilt(inplace=True) returns the plane, Image.fit_tilt always returns self *)
+Definition returns_self (s : state) (o : op) : option oid :=
+  match o with
+  | OFitTilt p inplace =>
+      match getobj s p with
+      | Some (j, Plane _ _ _ _ _ kind) => if kind =? 2 then Some j else if inplace then Some j else None
+      | _ => None
+      end
+  | _ => None
+  end.
+(* the buffers a result is made of *)
+Definition res_slots (s : state) (v : value) : list aid :=
+  match v with
+  | VArr a => [a]
+  | VObj j => match nth_error (ob s) j with Some o => oslots o | None => [] end
+  | VNone => []
+  end.
+(* calls documented to hand back a plane of their own: copy, rescale/resample, fit_tilt(inplace=False) of a non-Image plane *)
+Definition makes_new_plane (s : state) (o : op) : bool :=
+  match o with
+  | OCopy _ | ORescale _ => true
+  | OFitTilt p false => match getobj s p with Some (_, Plane _ _ _ _ _ kind) => negb (kind =? 2) | _ => false end
+  | _ => false
+  end.
+
 (* operations that are specified to draw from the global generator (they take no seed) *)
 Definition uses_global_rng (o : op) : bool := match o with ORandFn _ _ => true | _ => false end.
 
